@@ -139,4 +139,32 @@ PROPS = {
             rapid_stage("forward-vectors", "TestC09", 60, 400, tags="verif,vectors", tshards=4),
         ],
     },
+    "C10": {
+        "level": "exploration",
+        "rule": "history: rapid-generated histories of 2..8 builds in one process from a big schema (3..6 fields, composite, thesauri, vector fields under the tag) and a small one (1..2 fields): large-then-small, many-fields-then-few, synonym/vector batches followed by plain ones, empty batches, builds rejected by ValidateDocFields (15 %), random chunk modes, an optional wide batch; the builder pools are reset by hook at the start of a history and GOMAXPROCS is 1 so the pool hands the same builder back - this is measured per build through a counting hook, not assumed; every successful build's complete observation must equal the model of its own batch, a rejected build must return the validator's error. concurrent: 2..16 goroutines running such histories simultaneously (thorough: under the race detector); non-trivial = a history in which a batch follows one with strictly more fields or terms (history) / >= 2 goroutines (concurrent)",
+        "assumptions": COMMON_ASSUME + ["interleavings of concurrent builders are sampled (Go scheduler, race detector), not enumerated; a schedule-dependent failure is replayed by re-running the same histories"],
+        "technique": "property-based testing (rapid) over build histories with a measured pool-reuse hook vs. reference model of each batch alone; concurrent histories under the race detector",
+        "level_text": "Randomised exploration with shrinking of build histories; pooled-builder reuse is forced and measured; concurrent stage samples schedules.",
+        "level_note": "Trusts the reference model; pool reset/counter hooks (build tag verif) only re-initialise the two sync.Pools.",
+        "stages": [
+            {"name": "reuse-measured", "test": "TestC10ReuseMeasured", "tags": "verif", "quick": {"shards": 1, "timeout": 120}, "thorough": {"shards": 1, "timeout": 120}, "nostats": True},
+            rapid_stage("history", "TestC10", 150, 1200),
+            rapid_stage("history-vectors", "TestC10", 60, 400, tags="verif,vectors", tshards=4),
+            {"name": "concurrent", "test": "TestC10Concurrent", "tags": "verif",
+             "quick": {"checks": 40, "shards": 1, "timeout": 300}, "thorough": {"checks": 150, "shards": 8, "timeout": 1500, "race": True}},
+        ],
+    },
+    "C11": {
+        "level": "exploration",
+        "rule": "pool-history (the harness owns the schedule): rapid-generated histories over one segment (in memory or mmap) of full visits, early-stopped visits (stop after 1..3 callbacks), DocID calls and overlap actions - a visitor that inside every callback lets a second goroutine complete a full visit of another document and then re-reads the bytes it was handed; pools reset by hook, GOMAXPROCS 1; every visit must match the model and visitor bytes must not change during the callback. stress: 2..8 goroutines each running a generated script of reader calls (dictionary enumeration, postings with private exclusion bitmaps, full and early-stopped stored visits, DocID, DocNumbers, doc values with a private state, thesaurus lookups, merges that take the shared segment as input) against one fresh segment, each answer compared with the model; thorough runs under the race detector (a race report halts the run and is reported as a violation of the case that was running); non-trivial = an early-stopped visit followed by an overlap (pool-history) / >= 2 goroutines with a concurrent merge (stress)",
+        "assumptions": COMMON_ASSUME + ["interleavings of the stress stage are sampled, not enumerated, and a schedule-dependent failure may not reproduce from its replay file; the pool-history stage is deterministic"],
+        "technique": "property-based testing (rapid): deterministic pool-state histories with a harness-owned hand-off schedule, plus randomized concurrent reader scripts vs. reference model under the race detector",
+        "level_text": "Deterministic exploration with shrinking of the shared-pool histories named in the property; sampled schedules for free-running readers.",
+        "level_note": "Trusts the reference model; the race detector only sees executed interleavings.",
+        "stages": [
+            rapid_stage("pool-history", "TestC11Pool", 300, 4000),
+            {"name": "stress", "test": "TestC11Stress", "tags": "verif",
+             "quick": {"checks": 150, "shards": 1, "timeout": 300}, "thorough": {"checks": 400, "shards": 8, "timeout": 1500, "race": True}},
+        ],
+    },
 }
